@@ -244,7 +244,7 @@ class H(explore.Harness):
                 self.viol.append((f"discovery-does-not-report-the-last-advertisement:{via}", {"id": dev_id, "advertised": v, "reported": got}))
 
     # browser path (mDNS): state changes arrive through the zeroconf browser callback, the record sits in the zeroconf cache
-    def _zc(self, kind, dev_id, via):
+    def _zc(self, kind, dev_id, via, address=None):
         from zeroconf import ServiceStateChange
 
         hap = "_hap._tcp.local." if via == "ip" else "_hap._udp.local."
@@ -253,7 +253,7 @@ class H(explore.Harness):
         now = self.loop.time()
         if kind == "zc-add":
             props, v = self._props(dev_id, 0)
-            self.zc_cache[name] = svc_info(hap, dev_id, props=props, name=f"Acc{IDS.index(dev_id)}")
+            self.zc_cache[name] = svc_info(hap, dev_id, props=props, name=f"Acc{IDS.index(dev_id)}", **({"addresses": (address,)} if address else {}))
             self.may_find.add(dev_id)  # from now on a waiter may legitimately complete (the record is in the cache)
             if name not in self.model_resolve and via in self.started:
                 # the browser path may debounce: the record MUST have been processed DEBOUNCE_MAX after the state change (the code uses 0.5 s;
@@ -373,7 +373,7 @@ class H(explore.Harness):
             self.start_tasks = getattr(self, "start_tasks", []) + [self.loop.create_task(self.ctrls[via].async_start())]
         elif k in ("zc-add", "zc-rm"):
             try:
-                self._zc(k if k == "zc-add" else "zc-rm", IDS[int(parts[1])], parts[2])
+                self._zc(k if k == "zc-add" else "zc-rm", IDS[int(parts[1])], parts[2], address=parts[3] if len(parts) > 3 else None)
             except Exception as e:  # noqa: BLE001
                 self.viol.append((f"browser-callback-raises:{type(e).__name__}:{k}", {"err": str(e)[:200], "t": now}))
         elif k == "cancel":
@@ -649,7 +649,7 @@ def txt_blob(props):
 
 def run(ctx):
     quick = ctx.tier == "quick"
-    depth = 5 if quick else 10
+    depth = 5 if quick else 8
     configs = [
         dict(kind="ip", pairing="none", waiters=2, ids=2 if not quick else 1, P=1),
         dict(kind="ip", pairing="cached", waiters=2, ids=1, P=1),
